@@ -218,4 +218,87 @@ theorem decodeGroups_set_alpha (B : Bytes) : ∀ (i w : Nat), i < (encode B).len
     | k + 2, hk => simp [encode] at hk; omega
   | case4 => intro i w hi; simp [encode] at hi
 
+/-- length of a successful decoding -/
+theorem decodeGroups_length : ∀ (X Y : Bytes), decodeGroups X = some Y → Y.length = X.length * 3 / 4 := by
+  intro X
+  induction X using decodeGroups.induct with
+  | case1 c0 c1 c2 c3 rest v0 v1 v2 v3 h0 h1 h2 h3 out hout ih =>
+    intro Y h
+    simp only [decodeGroups, h0, h1, h2, h3, hout, Option.some.injEq] at h
+    subst h
+    have := ih out hout
+    simp only [List.length_cons, this]; omega
+  | case2 c0 c1 c2 c3 rest v0 v1 v2 v3 h0 h1 h2 h3 hout ih =>
+    intro Y h; simp [decodeGroups, h0, h1, h2, h3, hout] at h
+  | case3 c0 c1 c2 c3 rest hx =>
+    intro Y h
+    unfold decodeGroups at h
+    split at h
+    · rename_i v0 v1 v2 v3 h0 h1 h2 h3
+      exact absurd h3 (hx _ _ _ _ h0 h1 h2)
+    · cases h
+  | case4 c0 c1 c2 v0 v1 v2 h0 h1 h2 =>
+    intro Y h; simp only [decodeGroups, h0, h1, h2, Option.some.injEq] at h; subst h; simp
+  | case5 c0 c1 c2 hx =>
+    intro Y h
+    unfold decodeGroups at h
+    split at h
+    · rename_i v0 v1 v2 h0 h1 h2
+      exact absurd h2 (hx _ _ _ h0 h1)
+    · cases h
+  | case6 c0 c1 v0 v1 h0 h1 =>
+    intro Y h; simp only [decodeGroups, h0, h1, Option.some.injEq] at h; subst h; simp
+  | case7 c0 c1 hx =>
+    intro Y h
+    unfold decodeGroups at h
+    split at h
+    · rename_i v0 v1 h0 h1
+      exact absurd h1 (hx _ _ h0)
+    · cases h
+  | case8 c0 => intro Y h; simp [decodeGroups] at h
+  | case9 => intro Y h; simp [decodeGroups] at h; subst h; rfl
+
+/-- decoding splits at a multiple of four characters -/
+theorem decodeGroups_split : ∀ (k : Nat) (A T Y : Bytes), A.length = 4 * k → decodeGroups (A ++ T) = some Y →
+    ∃ dA dT, decodeGroups A = some dA ∧ decodeGroups T = some dT ∧ Y = dA ++ dT ∧ dA.length = 3 * k := by
+  intro k
+  induction k with
+  | zero =>
+    intro A T Y hA h
+    have : A = [] := List.eq_nil_of_length_eq_zero (by omega)
+    subst this
+    exact ⟨[], Y, by simp [decodeGroups], by simpa using h, rfl, rfl⟩
+  | succ k ih =>
+    intro A T Y hA h
+    match A, hA with
+    | c0 :: c1 :: c2 :: c3 :: A', hA' =>
+      have hA'' : A'.length = 4 * k := by simp at hA'; omega
+      simp only [List.cons_append] at h
+      unfold decodeGroups at h
+      split at h
+      · rename_i v0 v1 v2 v3 h0 h1 h2 h3
+        split at h
+        · rename_i out hout
+          obtain ⟨dA, dT, e1, e2, e3, e4⟩ := ih A' T out hA'' hout
+          simp only [Option.some.injEq] at h
+          refine ⟨UInt8.ofNat (v0 * 4 + v1 / 16) :: UInt8.ofNat (v1 % 16 * 16 + v2 / 4) ::
+            UInt8.ofNat (v2 % 4 * 64 + v3) :: dA, dT, ?_, e2, ?_, by simp [e4]; omega⟩
+          · simp only [decodeGroups, h0, h1, h2, h3, e1]
+          · rw [← h, e3]; rfl
+        · cases h
+      · cases h
+
+theorem filter_set_cr : ∀ (l : Bytes) (i : Nat), (∀ c ∈ l, isSkipped c = false) → i < l.length →
+    (l.set i 13).filter (fun c => !isSkipped c) = l.eraseIdx i
+  | [], i, _, hi => by simp at hi
+  | a :: l, 0, h, _ => by
+    have h13 : isSkipped 13 = true := by decide
+    have hl : l.filter (fun c => !isSkipped c) = l :=
+      List.filter_eq_self.mpr (fun c hc => by simp [h c (List.mem_cons_of_mem _ hc)])
+    simp [h13, hl]
+  | a :: l, i + 1, h, hi => by
+    have ha : isSkipped a = false := h a List.mem_cons_self
+    have ih := filter_set_cr l i (fun c hc => h c (List.mem_cons_of_mem _ hc)) (by simpa using hi)
+    simp [ha, ih]
+
 end GnoVerif.Base64
